@@ -73,6 +73,12 @@ def cases(ctx):
             ang = rng.uniform(0, math.tau)
             rel = rng.choice([0.2, 0.6, 0.9, 1.2, 1.5, 3.0])
             yield {"circle": [r, list(c), nd], "ang": ang, "rel": rel, "what": "circle"}
+        # just outside the arcs (between an arc and its control polygon) and just inside the chords, in the
+        # directions of the arc middles and of the arc ends
+        for q in range(ctx.n(8, 30)):
+            k = rng.randrange(nd)
+            ang = math.tau * (k + rng.choice([0.5, 0.5, 0.25, 0.0, 0.8])) / nd
+            yield {"circle": [r, list(c), nd], "ang": ang, "near": rng.choice(["hi*1.004", "hi*1.02", "lo*0.996", "lo*0.98"]), "rel": 1.0, "what": "circle"}
 
 
 def nontrivial(case):
@@ -98,6 +104,10 @@ def check(ctx, case):
         lo = r * math.cos(math.pi / nd) * (1 - 1e-9)
         hi = r * math.sqrt(1 + h ** 4 / (4 * (1 + h * h))) * (1 + 1e-9)
         d = case["rel"] * r
+        if case.get("near"):
+            which, fac = case["near"].split("*")
+            d = (hi if which == "hi" else lo) * float(fac)
+            ctx.count("circle:near " + case["near"])
         ctx.count("circle:ndiv=%d" % nd)
         if lo - 1e-3 * r <= d <= hi + 1e-3 * r and not case.get("band_probe"):
             ctx.count("circle:in-band-skipped")
